@@ -330,6 +330,41 @@ def case_shape_functions(H, g):
     H.absorb(ctx)
 
 
+def case_empty_and_documented_meta(H, g):
+    """two configuration clauses checked on the real code directly (no values involved, only types and shapes):
+    (a) "every batch rank including none and empty": the scans over an EMPTY batch dimension return the empty LieTensor;
+    (b) "returns the documented ... dtype and device": randn_like documents dtype/device defaulting to those of its input."""
+    for lshape in ((0,), (0, 2), (2, 0)):
+        for dim in range(len(lshape)):
+            for api in ('cumprod', 'cummul', 'cumprod_'):
+                nm = 'C06/empty/%s/%s/lshape=%s/dim=%d' % (g, api, lshape, dim)
+
+                def attempt(api=api, lshape=lshape, dim=dim):
+                    X = rand_group(g, 3, shape=lshape)
+                    try:
+                        Y = getattr(pp, api)(X.clone(), dim)
+                    except Exception as e:
+                        return True, '%s on a %s of lshape %s along dim %d raised %s: %s' % (api, g, lshape, dim, type(e).__name__, str(e)[:80])
+                    bad = not (isinstance(Y, pp.LieTensor) and Y.ltype == X.ltype and tuple(Y.shape) == tuple(X.shape) and Y.dtype == X.dtype)
+                    return bad, '%s on lshape %s returned %s %s' % (api, lshape, type(Y).__name__, tuple(Y.shape))
+                bad, det = attempt()
+                H.prove(nm, [], z3.BoolVal(not bad), key='C06/empty', replay=lambda model, a=attempt: a())
+    for dt in (torch.float64, torch.float32):
+        nm = 'C06/documented-meta/randn_like/%s/%s' % (g, str(dt).split('.')[-1])
+
+        def attempt2(dt=dt):
+            X = rand_group(g, 4, dtype=dt, shape=(2,))
+            out = []
+            for T_ in (X, X.Log()):
+                Y = pp.randn_like(T_)
+                if not (Y.dtype == T_.dtype and Y.device == T_.device and Y.ltype == T_.ltype and Y.lshape == T_.lshape):
+                    out.append('randn_like(%s %s lshape %s) returned %s %s lshape %s (documented: dtype and device of the input)' % (
+                        T_.ltype, T_.dtype, tuple(T_.lshape), Y.ltype, Y.dtype, tuple(Y.lshape)))
+            return bool(out), '; '.join(out[:2])
+        bad, det = attempt2()
+        H.prove(nm, [], z3.BoolVal(not bad), key='C06/documented-meta', replay=lambda model, a=attempt2: a())
+
+
 # ------------------------------------------------------------------------------------------------ non-mutation
 QUICK = [True]
 
@@ -547,6 +582,12 @@ def run(H):
         except Exception as e:
             import traceback; traceback.print_exc()
             H.engine_error('shape-functions', e)
+    for g in (['SO3', 'Sim3'] if H.quick else GROUPS):
+        try:
+            case_empty_and_documented_meta(H, g)
+        except Exception as e:
+            import traceback; traceback.print_exc()
+            H.engine_error('empty/meta', e)
     try:
         case_nonmutation(H)
     except Exception as e:
